@@ -125,14 +125,13 @@
           None))))
 
     (and (= (len x) 2) (in x0 syntax))
-      (if (and
-          (= x0 'unquote)
-          (isinstance x1 hy.models.Symbol)
-          (.startswith x1 "@"))
-        ; This case is special because `~@b` would be wrongly
-        ; interpreted as `(unquote-splice b)` instead of `(unquote @b)`.
-        (+ "~ " (hy-repr x1))
-        (+ (get syntax x0) (hy-repr x1)))
+      (do
+        (setv r1 (hy-repr x1))
+        ; `~@b` would be wrongly interpreted as `(unquote-splice b)`
+        ; instead of `(unquote @b)`, so separate with a space.
+        (+ (get syntax x0)
+           (if (and (= x0 'unquote) (.startswith r1 "@")) " " "")
+           r1))
 
     True
       (+ "(" (_cat x) ")"))))
